@@ -60,6 +60,20 @@ pub fn gen_entry(prop: &str, seed: u64, idx: usize, attempt: u64) -> Vec<(String
             }
             v
         }
+        "C23" => vec![("base".to_string(), e3_core::pgen::gen_blocking(&mut sim))],
+        "C24" => vec![("base".to_string(), e3_core::pgen::gen_defer(&mut sim))],
+        "C25" => {
+            // reference programs: the textual order of the statements is irrelevant (access groups
+            // are ordered by number), so it is shuffled
+            let mut p = e3_core::pgen::gen_refs(&mut sim);
+            let n = p.emit_order.len();
+            for i in (1..n).rev() {
+                let j = sim.choose("shuffle", 0, i as u64) as usize;
+                p.emit_order.swap(i, j);
+            }
+            vec![("base".to_string(), p)]
+        }
+        "C26" => vec![("base".to_string(), e3_core::pgen::gen_loops(&mut sim))],
         _ => {
             let base = e3_core::pgen::gen_free(&mut sim, &e3_core::pgen::GenCfg::free());
             vec![("base".to_string(), base)]
